@@ -16,6 +16,9 @@ from bv.common import Property, Failure, time_limit, exc_name, CaseTimeout, REPO
 
 # id -> python object.  id 0 is None (what setdefault(k) stores); strings can be keyword names.
 OBJ = [None, 'a', 'b', 1, 'c', (1, 'a'), 0, 2.5, frozenset([1]), 'd']
+# ids 10..159: only used by the "big argument" families (sizes past any small-size fast path)
+OBJ += [('k%d' % i) if i % 2 == 0 else 100 + i for i in range(10, 160)]
+NSMALL = 10
 ALIASES = {3: [1, 1.0, True], 6: [0, 0.0, False]}
 OBJ_ID = {o: i for i, o in enumerate(OBJ)}
 STR_IDS = [i for i, o in enumerate(OBJ) if isinstance(o, str)]
@@ -98,20 +101,29 @@ class C17(Property):
     THOROUGH_BUDGET_S = 600
     RULE = ('a case is one whole history over a register file of OneToOne (or ManyToMany, or one FrozenDict) '
             'instances: constructors from dict / pairs / one-shot iterator / kwargs / another instance (either '
-            'side), copy, and every mutator applied through the forward object or through .inv; after every '
-            'command every instance is dumped on both sides. Exhaustive: all histories of <= 2 commands (thorough: '
-            'also all of exactly 3 from two start states, budget permitting) over 2 object ids from several start '
-            'states; random histories up to 25 (thorough 80) '
-            'commands over <= 6 ids with ==-aliases (1/1.0/True); adversarial generators for overwrite/evict, '
-            'self- and cross-instance update, replace-onto-existing. Non-trivial = some command evicted or '
-            'merged an existing pair / read from another instance / raised; distinct = distinct history.')
+            'side; OneToOne.unique too), copy, and every mutator applied through the forward object or through the '
+            '.inv object taken ONCE when the instance was created (a held reference); after every command every '
+            'instance is dumped on both sides (the held inverse included, with `x.inv is held`). Order of the '
+            'stream: adversarial cases; round-2 families - FrozenDict hash-then-updated()/fromkeys() results '
+            'against a fresh twin built from their own items, equal FrozenDicts reached along 8 routes (ctor, '
+            'dict, updated chains with hash() on every intermediate, overwrite-in-place, pickle, deepcopy, copy) '
+            'in every insertion order of <= 3 items, unique-from-instance, emptied-then-refilled OneToOne through the '
+            'held inverse, BIG arguments (9..40 pairs over 10/16/32 ids, a few of 60..300 pairs over 160 ids; '
+            'ManyToMany value sets and FrozenDicts of that size) and ManyToMany sets of 1..129 values travelling to '
+            'another instance and then mutated on either one; exhaustive: all histories of <= 2 commands '
+            '(thorough: also all of exactly 3 from two start states, budget permitting) over 2 object ids from '
+            'several start states; random histories up to 25 (thorough 80) commands over <= 10 ids with '
+            '==-aliases (1/1.0/True, 0/0.0/False, None). Non-trivial = some command evicted or merged an '
+            'existing pair / read from another instance / raised; distinct = distinct history.')
     ASSUMPTIONS = ['keys and values are hashable, == is an equivalence consistent with hash, no NaN',
                    'update/constructor arguments are dicts, lists of pairs, one-shot iterators of pairs, keyword '
                    'arguments or another instance of the same class (non-dict Mapping objects are outside the model)',
                    'FrozenDict: "mutating dict operation" = __setitem__ __delitem__ __ior__ update setdefault pop '
                    'popitem clear (re-running __init__ is not an operation of the statement)']
-    CORRESPONDENCE_NAME = 'C17.Driver (OneToOne/ManyToMany/FrozenDict models) vs boltons.dictutils'
-    EXTRA_TRUSTED = ['C17 translator (regen): AST scan of class FrozenDict for names bound to _raise_frozen_typeerror']
+    CORRESPONDENCE_NAME = ('C17.Driver (OneToOne / ManyToMany by value AND heap-level with set-object identities / '
+                           'FrozenDict models) vs boltons.dictutils')
+    EXTRA_TRUSTED = ['C17 translator (regen): AST scan of class FrozenDict for names bound to _raise_frozen_typeerror, '
+                     'and of class OneToOne for the methods it defines itself']
 
     # ------------------------------------------------------------------ translator
     def regen(self):
@@ -133,21 +145,29 @@ class C17(Property):
         # a method the class defines itself is not the raiser any more
         own = {n.name for n in cls.body if isinstance(n, ast.FunctionDef)}
         blocked = [b for b in blocked if b not in own]
+        # OneToOne is a dict subclass: a mutating dict method the class body does not define itself is inherited
+        # and writes one side only (that is what `|=` did before d30f0de)
+        oto = [n for n in tree.body if isinstance(n, ast.ClassDef) and n.name == 'OneToOne'][0]
+        oto_own = [n.name for n in oto.body if isinstance(n, ast.FunctionDef)]
         text = ('/- GENERATED by harness/bv/props/c17.py (regen) from boltons/dictutils.py - do not edit.\n'
                 '   FrozenDict: the names the class body binds to `_raise_frozen_typeerror`, and the exception\n'
-                '   class that function raises. -/\n'
+                '   class that function raises.  OneToOne: the methods the class body defines itself. -/\n'
                 'namespace C17.Generated\n\n'
                 'def frozenBlocked : List String :=\n  [%s]\n\n'
                 'def frozenRaises : String := "%s"\n\n'
-                'end C17.Generated\n') % (', '.join('"%s"' % b for b in blocked), raises or '?')
+                'def otoDefined : List String :=\n  [%s]\n\n'
+                'end C17.Generated\n') % (', '.join('"%s"' % b for b in blocked), raises or '?',
+                                          ', '.join('"%s"' % b for b in oto_own))
         return {'C17_Frozen.lean': text}
 
     # ------------------------------------------------------------------ generation
     def cases(self, budget_s):
         rng = self.rng
-        for c in self.exhaustive(2):
-            yield c
         for c in self.adversarial():
+            yield c
+        for c in self.round2(rng, 400 if self.thorough else 60):
+            yield c
+        for c in self.exhaustive(2):
             yield c
         n = 40000 if self.thorough else 2500
         for i in range(n):
@@ -162,11 +182,15 @@ class C17(Property):
 
     def deep_cases(self, budget_s):
         rng = self.rng
-        for c in self.exhaustive(2):
-            yield c
         for c in self.adversarial():
             yield c
+        for c in self.round2(rng, 200):
+            yield c
+        for c in self.exhaustive(2):
+            yield c
         while True:
+            for c in self.round2(rng, 3, fixed=False):
+                yield c
             yield self.random_oto(rng, rng.random() < 0.2)
             yield self.random_m2m(rng, rng.random() < 0.2)
             yield self.random_fd(rng)
@@ -279,6 +303,174 @@ class C17(Property):
                     yield {'t': 'm2m', 'ops': [['new', 'list', [[1, 2], [2, 3], [3, 1], [1, 3]]], ['rep', 0, 'f', a, b],
                                                ['set', 0, 'i', c, [a, b], 'list'], ['rep', 0, 'i', b, c], ['del', 0, 'f', a]]}
 
+    # -- round 2: big arguments, derived FrozenDicts, equal FrozenDicts built along different routes
+    FD_ROUTES = ['ctor', 'fromdict', 'updated', 'updated_all', 'overwrite', 'pickle', 'deepcopy', 'copy']
+
+    def round2(self, rng, nbig, fixed=True):
+        if fixed:
+            for c in self.round2_fixed():
+                yield c
+        for i in range(nbig):
+            huge = i % 12 == 5       # a few arguments of hundreds of pairs over 160 ids
+            yield self.big_oto(rng, huge)
+            yield self.big_m2m(rng, huge)
+            yield self.big_fd(rng, huge)
+            yield self.alias_m2m(rng)
+
+    def round2_fixed(self):
+        # FrozenDict: hash first (or not), then updated() that overwrites an existing key / adds one / changes
+        # nothing; the result must be content-hashed on ITS OWN items; then equality against the original
+        for items in ([[1, ['h', 3]]], [[1, ['h', 3]], [2, ['h', 1]]], [[1, ['t', 0]], [4, ['h', 1]]], []):
+            keys = [k for k, _ in items] + [9]
+            for kind in ('dict', 'list', 'iter', 'kw'):
+                for k in keys:
+                    for v in (['h', 2], ['t', 1], ['h', 3]):
+                        for pre in ([], [['hash']]):
+                            yield {'t': 'fd', 'items': items,
+                                   'ops': pre + [['updated', kind, [[k, v]]], ['hash'], ['eq', list(reversed(items)), 'updated']]}
+            for pre in ([], [['hash']]):
+                yield {'t': 'fd', 'items': items, 'ops': pre + [['updated', 'list', []], ['updated', 'kw', []],
+                                                                ['fromkeys', [k for k, _ in items], ['h', 3]]]}
+        # equal FrozenDicts reached along every route, in every insertion order of <= 3 items
+        base = [[1, ['h', 3]], [4, ['t', 1]], [2, ['h', 0]]]
+        for n in range(0, 4):
+            for perm in itertools.permutations(base[:n]):
+                for route in self.FD_ROUTES:
+                    yield {'t': 'fd', 'items': base[:n], 'ops': [['eq', [list(p) for p in perm], route], ['hash']]}
+                    yield {'t': 'fd', 'items': base[:n], 'ops': [['hash'], ['eq', [list(p) for p in perm], route]]}
+        yield {'t': 'fd', 'items': [[1, ['u', 0]], [2, ['h', 1]]], 'ops': [['hash'], ['eq', [[2, ['h', 1]], [1, ['u', 0]]], 'updated'],
+                                                                           ['updated', 'list', [[1, ['h', 1]]]], ['hash']]}
+        # OneToOne.unique from another instance (+ keyword items that do / do not collide)
+        for kw in ([], [[1, 3]], [[1, 5]], [[4, 2]]):
+            for side in SIDES:
+                yield {'t': 'oto', 'ops': [['new', 'list', [[1, 2], [2, 3]], []], ['uniq', 'reg', [0, side], kw],
+                                           ['set', 1, 'i', 3, 1], ['del', 0, side, 2]]}
+        # a long-held `.inv`: every way of emptying / refilling, then mutate through the reference taken at creation
+        for emptier in (['clear', 0, 'f'], ['clear', 0, 'i'], ['popitem', 0, 'f'], ['pop', 0, 'i', 3, None], ['del', 0, 'f', 1]):
+            for filler in (['set', 0, 'i', 2, 4], ['upd', 0, 'f', 'dict', [[4, 2]], []], ['ior', 0, 'i', 'iter', [[2, 4]]], ['sd', 0, 'i', 2, 4]):
+                yield {'t': 'oto', 'ops': [['new', 'dict', [[1, 3]], []], emptier, filler, ['set', 0, 'i', 5, 1]]}
+
+    def bpairs(self, rng, ids, lo=9, hi=40):
+        if len(ids) > 100:
+            lo, hi = 60, 300
+        return [[rng.choice(ids), rng.choice(ids)] for _ in range(rng.randint(lo, hi))]
+
+    def big_oto(self, rng, huge=False):
+        ids = list(range(160 if huge else rng.choice([10, 16, 32])))
+        kinds = ['dict', 'list', 'iter', 'odict']
+        first = self.rpairs(rng, ids, 0, 6) if rng.random() < 0.6 else self.bpairs(rng, ids)
+        ops = [['new', rng.choice(['none'] + kinds), first, []]]
+        nregs = 1
+        for _ in range(rng.randint(1, 5)):
+            r, s, x = rng.randrange(nregs), rng.choice(SIDES), rng.random()
+            if x < 0.4:
+                ops.append(['upd', r, s, rng.choice(kinds), self.bpairs(rng, ids), self.rkw(rng, ids)])
+            elif x < 0.6:
+                ops.append(['ior', r, s, rng.choice(kinds), self.bpairs(rng, ids)])
+            elif x < 0.7 and nregs < 3:
+                ops.append([rng.choice(['new', 'uniq']), rng.choice(kinds), self.bpairs(rng, ids), self.rkw(rng, ids)])
+                nregs += 1
+            elif x < 0.78:
+                ops.append(['clear', r, s])
+            elif x < 0.86:
+                ops.append(['popitem', r, s])
+            elif x < 0.93:
+                ops.append(['upd', r, s, 'reg', [rng.randrange(nregs), rng.choice(SIDES)], []])
+            else:
+                ops.append(['set', r, s, rng.choice(ids), rng.choice(ids)])
+        return {'t': 'oto', 'ops': ops}
+
+    def big_m2m(self, rng, huge=False):
+        ids = list(range(160 if huge else rng.choice([10, 16, 32])))
+        first = self.rpairs(rng, ids, 0, 6) if rng.random() < 0.5 else self.bpairs(rng, ids)
+        ops = [['new', rng.choice(['none', 'list', 'iter', 'dict']), first]]
+        nregs = 1
+        for _ in range(rng.randint(1, 5)):
+            r, s, x = rng.randrange(nregs), rng.choice(SIDES), rng.random()
+            if x < 0.3:
+                ops.append(['upd', r, s, rng.choice(['list', 'iter', 'dict']), self.bpairs(rng, ids)])
+            elif x < 0.55:
+                ops.append(['set', r, s, rng.choice(ids), [rng.choice(ids) for _ in range(rng.randint(9, 120 if huge else 32))],
+                            rng.choice(['list', 'set', 'iter', 'frozenset'])])
+            elif x < 0.65 and nregs < 3:
+                ops.append(['new', 'reg', [r, s]] if rng.random() < 0.5 else ['new', 'list', self.bpairs(rng, ids)])
+                nregs += 1
+            elif x < 0.75:
+                ops.append(['upd', r, s, 'reg', [rng.randrange(nregs), rng.choice(SIDES)]])
+            elif x < 0.85:
+                ops.append(['rep', r, s, rng.choice(ids), rng.choice(ids)])
+            elif x < 0.93:
+                ops.append(['del', r, s, rng.choice(ids)])
+            else:
+                ops.append(['rem', r, s, rng.choice(ids), rng.choice(ids)])
+        return {'t': 'm2m', 'ops': ops}
+
+    def alias_m2m(self, rng):
+        """one key with a set of n values (n around every power of two up to 128) travels to another instance by
+        update(other) / ManyToMany(other) through either side; then that very set is mutated on one of the two"""
+        n = rng.choice([1, 2, 3, 5, 8, 9, 16, 17, 32, 33, 64, 65, 128, 129])
+        ids = list(range(160 if n > 20 else 32))
+        k = rng.choice(ids)
+        vals = rng.sample(ids, n)
+        s0 = rng.choice(SIDES)          # the side of instance 0 on which k is a KEY
+        other = 'i' if s0 == 'f' else 'f'
+        if rng.random() < 0.5:
+            ops = [['new', 'none', []], ['set', 0, s0, k, vals, rng.choice(['list', 'set', 'iter'])]]
+        else:
+            ops = [['new', 'list', [[k, v] if s0 == 'f' else [v, k] for v in vals]]]
+        s1 = rng.choice(SIDES)          # the side of instance 1 on which k becomes a key
+        src = [0, s0] if s1 == 'f' else [0, other]
+        if rng.random() < 0.4:
+            ops.append(['new', 'reg', src])
+        else:
+            ops.append(['new', rng.choice(['none', 'list']), self.rpairs(rng, ids, 0, 3)])
+            ops.append(['upd', 1, 'f', 'reg', src] if rng.random() < 0.5 else
+                       ['upd', 1, 'i', 'reg', [src[0], 'i' if src[1] == 'f' else 'f']])
+        for _ in range(rng.randint(1, 4)):
+            r = rng.randrange(2)
+            s = s0 if r == 0 else s1
+            x = rng.random()
+            if x < 0.35:
+                ops.append(['add', r, s, k, rng.choice(ids)])
+            elif x < 0.6:
+                ops.append(['rem', r, s, k, rng.choice(vals)])
+            elif x < 0.7:
+                ops.append(['del', r, s, k])
+            elif x < 0.8:
+                ops.append(['rep', r, s, k, rng.choice(ids)])
+            elif x < 0.9:
+                ops.append(['set', r, s, k, rng.sample(ids, rng.randint(0, 3)), 'list'])
+            else:
+                # through the other side: drop one of the values everywhere
+                ops.append(['del', r, 'i' if s == 'f' else 'f', rng.choice(vals)])
+        return {'t': 'm2m', 'ops': ops}
+
+    def big_fd(self, rng, huge=False):
+        ids = list(range(160 if huge else rng.choice([10, 16, 32])))
+        items = self.rfpairs(rng, ids, 100 if huge else 9, 300 if huge else 40, unh=rng.choice([0, 0, 0, 0.03]) / (8 if huge else 1), tok=0.1)
+        dd = self.dedup_keys(items)
+        ops = []
+        for _ in range(rng.randint(1, 5)):
+            x = rng.random()
+            if x < 0.2:
+                ops.append(['hash'])
+            elif x < 0.6:
+                other = list(dd)
+                rng.shuffle(other)
+                if rng.random() < 0.15 and other:
+                    other = other[:-1]
+                ops.append(['eq', other, rng.choice(self.FD_ROUTES)])
+            elif x < 0.75:
+                ops.append(['updated', rng.choice(['dict', 'list', 'iter']), self.rfpairs(rng, ids, 0, 12, unh=0)])
+            elif x < 0.9:
+                ops.append(['copy', rng.choice(['copy', 'ccopy', 'deepcopy', 'pickle0', 'pickle2', 'pickle5'])])
+            else:
+                ops.append(['fromkeys', [rng.choice(ids) for _ in range(rng.randint(9, 20))], ['h', rng.choice(ids)]])
+        for op in ops:
+            if op[0] == 'updated' and op[1] == 'dict':
+                op[2] = self.dedup_keys(op[2])
+        return {'t': 'fd', 'items': items, 'ops': ops}
+
     # -- random
     def rpairs(self, rng, ids, lo=0, hi=4):
         return [[rng.choice(ids), rng.choice(ids)] for _ in range(rng.randint(lo, hi))]
@@ -334,7 +526,10 @@ class C17(Property):
                     nregs += 1
                 else:
                     # unique: the register is created either way (left empty when ValueError is raised)
-                    ops.append(['uniq', rng.choice(kinds), self.rpairs(rng, ids, 0, 3), self.rkw(rng, ids)])
+                    if rng.random() < 0.3:
+                        ops.append(['uniq', 'reg', [r, s], self.rkw(rng, ids)])
+                    else:
+                        ops.append(['uniq', rng.choice(kinds), self.rpairs(rng, ids, 0, 3), self.rkw(rng, ids)])
                     nregs += 1
             else:
                 ops.append(['set', r, s, k, v])
@@ -421,7 +616,7 @@ class C17(Property):
                     other = other[:-1]
                 elif y < 0.4:
                     other = other + self.rfpairs(rng, ids, 1, 1)
-                ops.append(['eq', other])
+                ops.append(['eq', other, rng.choice(self.FD_ROUTES)] if rng.random() < 0.5 else ['eq', other])
             elif x < 0.82:
                 ops.append(['updated', rng.choice(['dict', 'list', 'iter', 'kw']), self.rfpairs(rng, ids, 0, 3)])
             elif x < 0.95:
@@ -547,7 +742,7 @@ class C17(Property):
                 elif o == 'hash':
                     toks.append('H')
                 elif o == 'eq':
-                    toks.append('E/' + self._fps(op[1]))
+                    toks.append('E/' + self._fps(op[1]) + ('/' + op[2] if len(op) > 2 else ''))
                 elif o == 'updated':
                     toks.append('U/' + self._fps(op[2]))
                 elif o == 'copy':
@@ -584,11 +779,16 @@ class C17(Property):
 
     @staticmethod
     def _side(x, s):
-        return x if s == 'f' else x.inv
+        # x = [instance, the `.inv` object it had when it was created]: calls "through .inv" go through the
+        # reference taken then, as a caller holding `inv = x.inv` would
+        return x[0] if s == 'f' else x[1]
 
     def impl_oto(self, case):
         from boltons.dictutils import OneToOne
         regs, out = [], []
+
+        def held(x):
+            return [x, x.inv]
         for n, op in enumerate(case['ops']):
             o, rec = op[0], {'ret': '-'}
             try:
@@ -604,9 +804,9 @@ class C17(Property):
                         else:
                             new = ctor(self._arg(op[1], op[2], n), **kw)
                     finally:
-                        regs.append(new if new is not None else OneToOne())
+                        regs.append(held(new if new is not None else OneToOne()))
                 elif o == 'copy':
-                    regs.append(self._side(regs[op[1]], op[2]).copy())
+                    regs.append(held(self._side(regs[op[1]], op[2]).copy()))
                 else:
                     x = self._side(regs[op[1]], op[2])
                     if o == 'set':
@@ -635,8 +835,8 @@ class C17(Property):
             except Exception as e:
                 rec['exc'] = exc_name(e)
             try:
-                rec['dump'] = [[[[oid(k), oid(v)] for k, v in x.items()], [[oid(k), oid(v)] for k, v in x.inv.items()],
-                                1 if (x.inv.inv is x and x.inv is x.inv) else 0, len(x), len(x.inv)] for x in regs]
+                rec['dump'] = [[[[oid(k), oid(v)] for k, v in x.items()], [[oid(k), oid(v)] for k, v in xi.items()],
+                                1 if (x.inv.inv is x and x.inv is xi and xi.inv is x) else 0, len(x), len(xi)] for x, xi in regs]
             except CaseTimeout:
                 raise
             except Exception as e:
@@ -645,17 +845,32 @@ class C17(Property):
             out.append(rec)
         return out
 
-    def _m2m_dump(self, x):
+    def _m2m_dump(self, x, probe):
         keys = [oid(k) for k in x.keys()]
         return {'keys': keys, 'iter': [oid(k) for k in x], 'len': len(x),
                 'grp': [[oid(k), sorted(oid(v) for v in x[k])] for k in x.keys()],
                 'pairs': [[oid(k), oid(v)] for k, v in x.iteritems()],
-                'get': [sorted(oid(v) for v in x.get(mk(i, i))) for i in range(len(OBJ))],
-                'has': [1 if mk(i, i + 1) in x else 0 for i in range(len(OBJ))]}
+                'get': [[i, sorted(oid(v) for v in x.get(mk(i, i)))] for i in probe],
+                'has': [[i, 1 if mk(i, i + 1) in x else 0] for i in probe]}
+
+    @staticmethod
+    def _ids_in(z, acc):
+        if isinstance(z, int) and not isinstance(z, bool):
+            acc.add(z)
+        elif isinstance(z, list):
+            for y in z:
+                C17._ids_in(y, acc)
+        return acc
 
     def impl_m2m(self, case):
         from boltons.dictutils import ManyToMany
         regs, out = [], []
+        used = {i for i in self._ids_in(case['ops'], set()) if i < len(OBJ)}
+        # reader probes: every id the history mentions plus two it does not
+        probe = sorted(used | set([i for i in range(NSMALL) if i not in used][:2]))
+
+        def held(x):
+            return [x, x.inv]
         for n, op in enumerate(case['ops']):
             o, rec = op[0], {'ret': '-'}
             try:
@@ -669,7 +884,7 @@ class C17(Property):
                         else:
                             new = ManyToMany(self._arg(op[1], op[2], n))
                     finally:
-                        regs.append(new if new is not None else ManyToMany())
+                        regs.append(held(new if new is not None else ManyToMany()))
                 else:
                     x = self._side(regs[op[1]], op[2])
                     if o == 'add':
@@ -690,7 +905,8 @@ class C17(Property):
             except Exception as e:
                 rec['exc'] = exc_name(e)
             try:
-                rec['dump'] = [[self._m2m_dump(x), self._m2m_dump(x.inv), 1 if x.inv.inv is x else 0] for x in regs]
+                rec['dump'] = [[self._m2m_dump(x, probe), self._m2m_dump(xi, probe),
+                                1 if (x.inv.inv is x and x.inv is xi and xi.inv is x) else 0] for x, xi in regs]
             except CaseTimeout:
                 raise
             except Exception as e:
@@ -738,6 +954,51 @@ class C17(Property):
         out['eq'] = out['eqb']
         return out
 
+    def _fd_route(self, FrozenDict, pairs, route):
+        """a FrozenDict holding `pairs`, reached along `route`; hash() is called on every intermediate object so
+        that whatever an implementation caches is there to be carried along"""
+        if route == 'ctor':
+            return FrozenDict(pairs)
+        if route == 'fromdict':
+            return FrozenDict(dict(pairs))
+        if route == 'updated':
+            o = FrozenDict()
+            for pr in pairs:
+                self._hash(o)
+                o = o.updated([pr])
+            return o
+        if route == 'updated_all':
+            o = FrozenDict()
+            self._hash(o)
+            return o.updated(iter(pairs))
+        if route == 'overwrite':
+            # every key first gets a placeholder value, which is then overwritten (same keys, same length)
+            o = FrozenDict()
+            for k, _ in pairs:
+                self._hash(o)
+                o = o.updated({k: 'placeholder'})
+            for pr in pairs:
+                self._hash(o)
+                o = o.updated([pr])
+            return o
+        o = FrozenDict(pairs)
+        self._hash(o)
+        if route == 'pickle':
+            return pickle.loads(pickle.dumps(o, 2))
+        if route == 'deepcopy':
+            return copy.deepcopy(o)
+        if route == 'copy':
+            return copy.copy(o)
+        raise ValueError(route)
+
+    def _derived(self, FrozenDict, res, rec):
+        """a FrozenDict handed out by updated()/fromkeys(): against a fresh one built from ITS OWN items"""
+        rec['res'] = self._fitems(res)
+        rec['type'] = type(res).__name__
+        twin = FrozenDict(list(reversed(list(res.items()))))
+        rec['eqt'] = 1 if (res == twin and twin == res) else 0
+        rec['hr'], rec['ht'], rec['hr2'] = self._hash(res), self._hash(twin), self._hash(res)
+
     def impl_fd(self, case):
         from boltons.dictutils import FrozenDict
         fd = FrozenDict([(mk(k, j), fmk(v, j + 1)) for j, (k, v) in enumerate(case['items'])])
@@ -770,8 +1031,10 @@ class C17(Property):
                 elif o == 'hash':
                     rec['h'] = self._hash(fd)
                 elif o == 'eq':
-                    other = FrozenDict([(mk(k, n + j), fmk(v, j)) for j, (k, v) in enumerate(op[1])])
+                    other = self._fd_route(FrozenDict, [(mk(k, n + j), fmk(v, j)) for j, (k, v) in enumerate(op[1])],
+                                           op[2] if len(op) > 2 else 'ctor')
                     rec['eq'] = 1 if (fd == other and other == fd and not (fd != other)) else 0
+                    rec['otype'] = type(other).__name__
                     rec['h1'], rec['h2'] = self._hash(fd), self._hash(other)
                     rec['h2b'] = self._hash(other)
                 elif o == 'updated':
@@ -780,8 +1043,7 @@ class C17(Property):
                         res = fd.updated(**dict(ps))
                     else:
                         res = fd.updated({'dict': dict, 'list': list, 'iter': iter}[op[1]](ps))
-                    rec['res'] = self._fitems(res)
-                    rec['type'] = type(res).__name__
+                    self._derived(FrozenDict, res, rec)
                 elif o == 'copy':
                     k = op[1]
                     rec['h1'] = self._hash(fd)        # the hash is computed (and cached) BEFORE the copy
@@ -816,8 +1078,7 @@ class C17(Property):
                                 EPOCH[0] -= 1
                 elif o == 'fromkeys':
                     res = FrozenDict.fromkeys([mk(k, n) for k in op[1]], fmk(op[2], n))
-                    rec['res'] = self._fitems(res)
-                    rec['type'] = type(res).__name__
+                    self._derived(FrozenDict, res, rec)
             except CaseTimeout:
                 raise
             except Exception as e:
@@ -846,6 +1107,12 @@ class C17(Property):
             return 'R%s:%s' % (r[0], r[1])
         return 'R%s' % (r,)
 
+    @staticmethod
+    def _derived_ok(rec):
+        if rec.get('type') != 'FrozenDict':
+            return 1      # the statement asks for an equal value, not for a particular type
+        return 1 if (rec.get('eqt') and rec.get('hr') == rec.get('ht') == rec.get('hr2')) else 0
+
     def render(self, case, obs):
         t = case['t']
         recs = []
@@ -869,6 +1136,9 @@ class C17(Property):
                 parts = [self._ret(rec)]
                 for d in rec.get('dump', []):
                     parts.append('F%s/P%s/I%s/Q%s' % (grp(d[0]), prs(d[0]), grp(d[1]), prs(d[1])))
+                # the model side runs two machines (heap-level and by-value) and says whether they agree (V1) and
+                # whether every set object is referenced once only (S1); the implementation has nothing to add
+                parts.append('V1S1')
                 recs.append('|'.join(parts))
         else:
             if 'items' not in obs[0]:
@@ -886,6 +1156,10 @@ class C17(Property):
                 elif o == 'eq':
                     if not rec['eq']:
                         h = '-'
+                    elif rec.get('otype', 'FrozenDict') != 'FrozenDict':
+                        # a pickle / copy route that hands out some other equal mapping: the statement asks for an
+                        # equal value, not for a type, and says nothing about that object's hash
+                        h = '1' if isinstance(rec['h1'], int) else ('X' if rec['h1'] == 'FrozenHashError' else '0')
                     elif isinstance(rec['h1'], int) and isinstance(rec['h2'], int):
                         h = '1' if rec['h1'] == rec['h2'] else '0'
                     elif rec['h1'] == rec['h2'] == 'FrozenHashError':
@@ -894,12 +1168,12 @@ class C17(Property):
                         h = '0'
                     recs.append('E%d/H%s|%s' % (rec['eq'], h, items))
                 elif o == 'updated':
-                    recs.append('T%s|%s' % (self._rfp(rec['res']), items))
+                    recs.append('T%s/T%d|%s' % (self._rfp(rec['res']), self._derived_ok(rec), items))
                 elif o == 'copy':
                     ok = rec.get('h2') == rec.get('h3') and rec.get('hb1') == rec.get('hb2') and rec.get('eqb', 1)
                     recs.append('Y%s/T%d|%s' % (self._rfp(rec['res']), 1 if ok else 0, items))
                 elif o == 'fromkeys':
-                    recs.append('K%s|%s' % (self._rfp(rec['res']), items))
+                    recs.append('K%s/T%d|%s' % (self._rfp(rec['res']), self._derived_ok(rec), items))
         return ';'.join(recs) if recs else '-'
 
     # ------------------------------------------------------------------ oracle (independent of the model)
@@ -1048,7 +1322,7 @@ class C17(Property):
                 if si != {(b, a) for a, b in sf} or len(fw) != len(iv):
                     return Failure('not_inverse', '%s: forward %r and inverse %r are not exact inverses' % (who, fw, iv))
                 if not invinv:
-                    return Failure('inv_inv', '%s: x.inv.inv is not x' % who)
+                    return Failure('inv_inv', '%s: x.inv.inv is not x (or x.inv is no longer the object it was)' % who)
                 if P is None:
                     dd = loose_ctor
                     if not (sf <= set(dd.items()) and {b for _, b in sf} == set(dd.values())):
@@ -1126,7 +1400,7 @@ class C17(Property):
             for i, (d, P) in enumerate(zip(rec['dump'], refs)):
                 who = 'instance %d after %r' % (i, op)
                 if not d[2]:
-                    return Failure('inv_inv', '%s: x.inv.inv is not x' % who)
+                    return Failure('inv_inv', '%s: x.inv.inv is not x (or x.inv is no longer the object it was)' % who)
                 sides = []
                 for name, v in (('forward', d[0]), ('inverse', d[1])):
                     pairs = {tuple(p) for p in v['pairs']}
@@ -1136,8 +1410,8 @@ class C17(Property):
                         return Failure('empty_entry', '%s: %s side has an empty entry: %r' % (who, name, v['grp']))
                     if len(pairs) != len(v['pairs']) or len(set(keys)) != len(keys) or v['len'] != len(keys) \
                             or v['iter'] != keys or pairs != {(k, x) for k, vs in v['grp'] for x in vs} \
-                            or any(v['get'][j] != grp.get(j, []) for j in range(len(OBJ))) \
-                            or any(v['has'][j] != (1 if j in grp else 0) for j in range(len(OBJ))):
+                            or any(g != grp.get(j, []) for j, g in v['get']) \
+                            or any(h != (1 if j in grp else 0) for j, h in v['has']):
                         return Failure('views', '%s: %s side readers disagree with each other: %r' % (who, name, v))
                     sides.append(pairs)
                 if sides[1] != {(b, a) for a, b in sides[0]}:
@@ -1197,7 +1471,7 @@ class C17(Property):
                 want = 1 if other == ref else 0
                 if rec['eq'] != want:
                     return Failure('eq', '== against %r is %r' % (op[1], rec['eq']))
-                if want:
+                if want and rec.get('otype', 'FrozenDict') == 'FrozenDict':
                     if [k for k, _ in op[1]] != [k for k, _ in orig]:
                         self._nt = True
                     if hashable:
@@ -1218,6 +1492,9 @@ class C17(Property):
                 if asdict(rec['res']) != want or len(rec['res']) != len(want):
                     return Failure('updated', 'updated(%r) = %r' % (op[2], rec['res']))
                 self._nt = self._nt or bool(op[2])
+                f = self._derived_oracle('updated(%r)' % (op[2],), rec, all(v[0] != 'u' for v in want.values()))
+                if f:
+                    return f
             elif o == 'copy':
                 if asdict(rec['res']) != ref or len(rec['res']) != len(ref) or not rec['eq']:
                     return Failure('copy', '%s gives %r (== original: %r)' % (op[1], rec['res'], rec['eq']))
@@ -1242,6 +1519,26 @@ class C17(Property):
                 want = {k: val(op[2]) for k in op[1]}
                 if asdict(rec['res']) != want or len(rec['res']) != len(want):
                     return Failure('fromkeys', 'fromkeys(%r, %r) = %r' % (op[1], op[2], rec['res']))
+                f = self._derived_oracle('fromkeys(%r, %r)' % (op[1], op[2]), rec, op[2][0] != 'u' or not op[1])
+                if f:
+                    return f
+        return None
+
+    @staticmethod
+    def _derived_oracle(what, rec, hashable):
+        """the FrozenDict handed out by updated()/fromkeys() equals a fresh FrozenDict built from its own items, so
+        the two must hash alike (or both raise FrozenHashError), whatever the original had cached"""
+        if rec.get('type') != 'FrozenDict':
+            return None
+        if not rec['eqt']:
+            return Failure('updated', '%s != FrozenDict(list(its items))' % what)
+        if hashable:
+            if not (isinstance(rec['hr'], int) and rec['hr'] == rec['ht'] == rec['hr2']):
+                return Failure('hash_derived', '%s hashes %r (again: %r) but the equal FrozenDict built from its items '
+                               'hashes %r' % (what, rec['hr'], rec['hr2'], rec['ht']))
+        elif not (rec['hr'] == rec['ht'] == rec['hr2'] == 'FrozenHashError'):
+            return Failure('hash_unhashable', '%s with an unhashable value: hash gave %r / %r / %r' % (
+                what, rec['hr'], rec['ht'], rec['hr2']))
         return None
 
     def nontrivial(self, case, obs):
